@@ -16,6 +16,7 @@ DECIDED = [
     "DECL: the declaration is split on ' ', the name is split 0, each further split is divided at '=' into a two-slot list, the value is trimmed with a predicate that matches only the double quote; a trailing '/' marks an empty element; a failed split is an error",
     "NEST-TERMINATORS: the same-name nesting test accepts exactly the characters that can end a tag name in the declaration parser ('>', '/' and white space)",
     "BODY-VIEW: the body handed out starts at the node's body position, ends exactly where the closing tag that was found starts, and lies inside the node's body view, for all documents (NUM, under the document-only-shrinks invariant checked at the internal call sites)",
+    "ERR-CHECKED (callbacks, appends): from a non-zero callback result only error returns are reachable in traverse and in the root dispatch; every append whose result is dropped provably has room (NUM: the name-length guard agrees with the pattern buffers' sizes); DECL: the node handed to a callback is declared with an initialiser per element (inside the child loop)",
     "ERR-CHECKED: no result of the parser's own fallible steps (skip to closing tag, declaration load, sibling step, traverse, as_body) is dropped inside xml_parser.c",
     "LIMITS: the depth limit applied is the option's value or, when that is 0, the default constant, with no offset (NUM); the split scratch is one slot larger than the attribute array; the attribute loop starts at split 1, steps by one and is left only when the index reaches the number of splits",
     "plus C04's BOUND / PROGRESS / RECUR rules restricted to xml_parser.c",
@@ -171,6 +172,65 @@ def once(R, P):
             ok = ok and ev_dominates(g, ind[0], adv[0])
         R.check(ok, "SKIP", "%s:unprocessed-node-is-skipped" % g.name, where(g, adv[0]) if adv else g.name, "after the callback, the node is skipped to its closing tag exactly when it was not processed",
                 "%s does not skip an element the callback left untouched (its following siblings are mis-reported)" % g.name)
+    # a failing callback fails the traversal: from the `non-zero` outcome of the callback only error returns are reachable
+    from sa.cfg import edges as _edges
+    for g, node_var, how in ((f, "next_node", "param"), (s, "sibling_node", "stack")):
+        ind = user_calls(g)
+        if not ind:
+            continue
+        cid = ind[0].node["id"]
+        holders = {None}
+        for e in g.all_events():
+            if e.kind == "decl":
+                for v in e.node["vars"]:
+                    if v.get("init") is not None and any(x.get("id") == cid for x in g.walk(v["init"], follow_refs=False) if x["k"] in ("ref", "call")):
+                        holders.add(v["n"])
+        tests = []
+        for b in g.blocks.values():
+            if b.cond is None:
+                continue
+            t = RU.cmp_norm(g, b.cond, True)
+            if t is None or t[2] is not None and g.is_const(t[2]) not in (0, None):
+                continue
+            x0 = RU.uncast(g, t[0])
+            is_res = x0 is not None and ((x0["k"] in ("call", "ref") and x0.get("id") == cid) or (x0["k"] == "var" and x0["n"] in holders) or (g.d(t[0]) is not None and g.d(t[0]).get("id") == cid))
+            if is_res and t[1] in ("!=", "=="):
+                tests.append((b, t[1] == "!="))  # polarity of the edge on which the result is non-zero
+        bad = []
+        if not tests:
+            bad.append("the callback's result is never tested")
+        for b, pol_nonzero in tests[:1]:
+            start = [s_ for s_, c_, p_ in _edges(g, b.id) if p_ == pol_nonzero]
+            seen, work = set(), list(start)
+            while work:
+                x = work.pop()
+                if x in seen:
+                    continue
+                seen.add(x)
+                work.extend(s_ for s_, c_, p_ in _edges(g, x))
+            for r_ in g.returns():
+                if r_.blk not in seen:
+                    continue
+                v = RU.uncast(g, r_.node["a"][0]) if r_.node["a"] else None
+                cv = g.is_const(v) if v is not None else None
+                if cv is not None and cv != 0:
+                    continue
+                if v is not None and g.show(v).endswith("parser->error"):
+                    # acceptable when an assignment parser->error = <non-zero> lies on the way (inside the reached region, dominating the return)
+                    st_ = [e for e in g.field_accesses(rec="aws_xml_parser", field="error", modes=("w",)) if e.blk in seen and ev_dominates(g, e, r_)]
+                    if st_:
+                        continue
+                bad.append("line %d returns %s" % (r_.node["loc"][0], g.show(v) if v is not None else "nothing"))
+        R.check(not bad, "ERR-CHECKED", "%s:callback-failure-fails-the-parse" % g.name, where(g, ind[0]), "after a non-zero callback result only error returns are reachable",
+                "a callback that reports failure (an abort, or a failed body read) does not make %s fail (%s): aws_xml_parse returns success for a document the callback rejected or that lacks a closing tag" % (g.name, "; ".join(bad[:2])))
+        # the node handed to the callback is a fresh object per element: declared with an initialiser where it is loaded
+        # (inside the child loop for traverse), so no field of the previous sibling survives into this element
+        decls = [e for e in g.all_events() if e.kind == "decl" and any(v["n"] == node_var and v.get("init") is not None for v in e.node["vars"])]
+        loops_ = Num(g, P, None).loops()
+        inner = [body for h, body in loops_.items() if ind[0].blk in body]
+        okn = len(decls) == 1 and (not inner or any(decls[0].blk in body for body in inner))
+        R.check(okn, "DECL", "%s:node-is-fresh-per-element" % g.name, where(g, ind[0]), "`%s` is declared with an initialiser %s" % (node_var, "inside the child loop" if inner else "before it is loaded"),
+                "`%s` is not re-initialised for each element (declared outside the loop / without initialiser): fields the declaration loader only sets conditionally (the attribute list) keep the previous sibling's values" % node_var)
     # the closing tag of the parent ends the child loop without a callback
     brk = [b for b in f.blocks.values() if b.cond is not None and "parent_closed" in f.show(b.cond)]
     ind = user_calls(f)
@@ -377,6 +437,52 @@ def err_checked(R, P):
     R.check(n >= 5, "ERR-CHECKED", "all-fallible-steps-tested", FILE, "%d calls of %s: every result is tested, returned or stored" % (n, sorted(fallible)), "only %d calls of the parser's fallible steps found" % n)
 
 
+def unchecked_appends(R, P):
+    """ERR-CHECKED/appends: an append whose result is dropped must not be able to fail: NUM shows at each such call that
+    the destination has room (the name-length guard and the pattern buffers' sizes agree)."""
+    from sa.awslib import AwsHooks
+    n = 0
+    for g in P.functions_in(FILE):
+        apps = [el for el in _discarded_calls(g, {"aws_byte_buf_append", "aws_byte_buf_append_dynamic", "aws_byte_buf_write", "aws_byte_buf_write_u8"})]
+        if not apps:
+            continue
+        R.fn(g)
+
+        class H(XmlHooks):
+            def call(self, num, st, e, args):
+                if (e.get("callee") or "") == "aws_byte_buf_append" and len(args) >= 2 and args[0] is not None and args[1] is not None:
+                    bb, cb = self._cbase(num, st, e, 0, args), self._cbase(num, st, e, 1, args)
+                    ln = num.field(st, bb + "len", "aws_byte_buf", "len")
+                    cap = num.field(st, bb + "capacity", "aws_byte_buf", "capacity")
+                    fl = num.field(st, cb + "len", "aws_byte_cursor", "len")
+                    ok = entails(st, ln + fl - cap)
+                    num.__dict__.setdefault("app_log", []).append((e, ok, repr(ln + fl), repr(cap)))
+                    if ok:
+                        st.env[bb + "len"] = ln + fl
+                        return Poly.const(0)
+                    st.env[bb + "len"] = Poly.atom(num.fresh(st, "len", None, (0, 2 ** 62)))
+                    return Poly.atom(num.fresh(st, "append", num.ty(e)))
+                return XmlHooks.call(self, num, st, e, args)
+        num = Num(g, P, H(), max_paths=20000)
+        try:
+            num.states_at({-1})
+        except Limit as ex:
+            R.broken(str(ex))
+            continue
+        ids = {el["id"] for el in apps}
+        by = {}
+        for e, ok, need, cap in getattr(num, "app_log", []):
+            if e["id"] in ids:
+                o = by.setdefault(e["id"], [e, True, ""])
+                if not ok:
+                    o[1], o[2] = False, "needs %s of capacity %s" % (need, cap)
+        for eid, (e, ok, det) in sorted(by.items()):
+            n += 1
+            R.check(ok, "ERR-CHECKED", "%s:unchecked-append-line%d-has-room" % (g.name, e.get("loc", [0])[0]), "%s:%d in %s()" % (FILE, e.get("loc", [0])[0], g.name), "the append cannot fail: the destination has room in every state",
+                    "the result of this append is dropped although it can fail (%s): for a name at the length limit the search pattern is silently cut short, so nested same-name elements are not counted and siblings are lost" % det)
+    R.require(n >= 4, "only %d unchecked appends analysed" % n)
+
+
 def limits(R, P):
     """LIMITS: the two documented limits are applied as stated.
     depth: the parser's max_depth is the option's value, or the default constant when the option is 0 - with no offset -
@@ -486,11 +592,18 @@ def analyse(ctx, replace=None, only=None):
         body_view(R, P)
     if on("ERR-CHECKED"):
         err_checked(R, P)
+        unchecked_appends(R, P)
     if on("LIMITS"):
         limits(R, P)
 
 
 MUTANTS = [
+    {"name": "root-callback-failure-dropped", "file": FILE, "expect": "ERR-CHECKED", "scope": {"rules": ["ONCE"]}, "old": "    if (stack_data.cb(&sibling_node, stack_data.user_data)) {\n        return AWS_OP_ERR;\n    }\n\n    /* if the user simply returned while skipping the node altogether, go ahead and do the skip over. */\n    if (!sibling_node.processed) {",
+     "new": "    int cb_result = stack_data.cb(&sibling_node, stack_data.user_data);\n\n    if (!cb_result && !sibling_node.processed) {"},
+    {"name": "open-pattern-buffer-without-overhead", "file": FILE, "expect": "ERR-CHECKED", "old": "    uint8_t name_open[MAX_NAME_LEN + NODE_CLOSE_OVERHEAD] = {0};", "new": "    uint8_t name_open[MAX_NAME_LEN] = {0};"},
+    {"name": "child-node-hoisted-out-of-the-loop", "file": FILE, "expect": "DECL", "scope": {"rules": ["ONCE", "DECL"]},
+     "old": "    size_t doc_depth = aws_array_list_length(&parser->callback_stack);\n    if (doc_depth >= parser->max_depth) {", "new": "    struct aws_xml_node next_node;\n    AWS_ZERO_STRUCT(next_node);\n    next_node.parser = parser;\n    size_t doc_depth = aws_array_list_length(&parser->callback_stack);\n    if (doc_depth >= parser->max_depth) {",
+     "old2": "        struct aws_xml_node next_node = {\n            .parser = parser,\n            .doc_at_body = parser->doc,\n            .processed = false,\n        };", "new2": "        next_node.doc_at_body = parser->doc;\n        next_node.processed = false;"},
     {"name": "skip-failure-ignored", "file": FILE, "expect": "ERR-CHECKED", "old": "            if (s_advance_to_closing_tag(parser, &next_node, NULL)) {\n                goto error;\n            }\n        }\n    }\n\n    aws_array_list_pop_back(&parser->callback_stack);",
      "new": "            s_advance_to_closing_tag(parser, &next_node, NULL);\n        }\n    }\n\n    aws_array_list_pop_back(&parser->callback_stack);"},
     {"name": "tenth-attribute-dropped", "file": FILE, "expect": "LIMITS", "old": "        for (size_t i = 1; i < splits.length; ++i) {", "new": "        for (size_t i = 1; i < splits.length && i < AWS_ARRAY_SIZE(parser->attributes); ++i) {"},
